@@ -2,6 +2,7 @@
   C05 — A syntax error stays contained in the declaration it occurs in.  Property theorems only.
 -/
 import SplVerif.Lemmas.ParserTables
+import SplVerif.Lemmas.Resync
 
 namespace Spl.C05
 
@@ -12,5 +13,19 @@ theorem sync_sets_ok : SyncSetsOK = true := by decide
 
 /-- The synchronisation sets are nested the way the grammar nests. -/
 theorem sync_sets_nested : SyncSetsNested = true := by decide
+
+/-- **Error recovery resynchronises at the next procedure or type declaration.**  Whenever the
+    recovery of a damaged global declaration (`ignore_until(look_ahead::global_dec)`) finishes, it
+    stands exactly where the next non-comment token is `proc`, `type` or the end of the file, and it
+    has skipped no position from which such a token was the next one — whatever the tokens are and
+    wherever the damage is: the keyword and the doc comments of the following declaration are never
+    swallowed by this recovery. -/
+theorem global_resync (ctx : Parse.Ctx) (fuel : Nat) (s s' : Parse.St) (start : Nat) (skipped : List Token)
+    (h : Parse.ignoreUntil0 ctx (Parse.peek (Parse.la ctx .global_dec)) fuel start s = .ok s' skipped) :
+    s.pos ≤ s'.pos ∧
+    (∃ i t, ParseConform.Next ctx.toks s'.pos i ∧ ctx.toks[i]? = some t ∧ ParseConform.isSync t.ty.kind = true) ∧
+    (∀ q, s.pos ≤ q → q < s'.pos → ∀ i t, ParseConform.Next ctx.toks q i → ctx.toks[i]? = some t →
+      ParseConform.isSync t.ty.kind = false) :=
+  ParseConform.global_resync ctx fuel s s' start skipped h
 
 end Spl.C05
